@@ -36,6 +36,9 @@ FROM = ("field", MV, "from")
 TO = ("field", MV, "to")
 PROMO = ("field", MV, "promotion")
 RANK = "cozy_chess_types::rank::Rank"
+EPGET = ("get", "en_passant", SELF)
+# the en-passant target square: the recorded file on the 6th rank relative to the mover
+EPSQ = ("sq", ("field", ("downcast", EPGET, "Some"), "0"), ("relrank", 5, STM))
 
 
 def rankbb(n):
@@ -99,9 +102,10 @@ def decisions(L, p, moved):
             d["from27"] = b
         elif e[0] == "has" and e[2] == TO and setalg.equivalent(e[1], ("or", rankbb("Fourth"), rankbb("Fifth"))):
             d["to45"] = b
-        elif e[0] == "bin" and e[1] == "Eq" and is_some_of(e[2], TO) and e[3][0] == "call" and e[3][1].endswith("::map"):
-            d["epcap"] = b
-            d["epcap_expr"] = e[3]
+        elif e == ("discr", EPGET):
+            d["ep_some"] = (v == 1)
+        elif e[0] == "bin" and e[1] in ("Eq", "Ne") and TO in (e[2], e[3]) and EPSQ in (e[2], e[3]):
+            d["epcap"] = (e[1] == "Eq") == b
         elif e[0] == "bin" and e[1] == "Eq" and set((e[2], e[3])) == {("relrank", 7, STM), ("rank", TO)}:
             d["their_back"] = b
         elif e[0] == "bin" and e[1] == "Eq" and set((e[2], e[3])) == {("relrank", 0, STM), ("rank", FROM)}:
@@ -114,6 +118,8 @@ def decisions(L, p, moved):
             d["rk_" + e[3][2]] = b
         elif e[0] == "bin" and e[1] == "Eq" and ("enum", PIECE, "Knight") in (e[2], e[3]):
             pass
+    if d.get("ep_some") is False and "epcap" not in d:
+        d["epcap"] = False          # no en-passant square: nothing to compare the destination with
     return d
 
 
@@ -228,15 +234,7 @@ def run(ctx):
                                 want_place.append((Pc("Pawn"), NSTM, ("sq", ("file", TO), ("relrank", 4, STM))))
                                 case += "-ep"
                                 # the en-passant square: ep file on the 6th rank relative to the mover
-                                ex = d["epcap_expr"]
-                                okc = ex[2][0] == ("get", "en_passant", SELF) and ex[2][1][0] == "closure"
-                                if okc:
-                                    cb = f.bodies.get(ex[2][1][1])
-                                    cps = sym.SymExec(f, cb).run() if cb else []
-                                    r = L.lift(cps[0].ret) if len(cps) == 1 and cps[0].ret else None
-                                    okc = r is not None and r[0] == "sq" and r[1][0] == "param" and r[2][0] == "relrank" and r[2][1] == 5
-                                    up = ex[2][1][2]
-                                    okc = okc and len(up) == 1
+                                okc = d.get("ep_some") is True
                                 ctx.check(okc, "pawn:ep-square", "the en-passant capture is not recognised by to == (ep file, 6th rank relative to the mover)", where,
                                           sample={"ep capture": "Some(to) == en_passant.map(|f| Square::new(f, Sixth.relative_to(color)))"} if "epsq" not in seen else None)
                                 seen.add("epsq")
